@@ -27,10 +27,17 @@ import (
 	"verif/sim/instrument"
 )
 
-const (
-	repoDir = "/repo"
-	goBin   = "go1.26.8"
-)
+const goBin = "go1.26.8"
+
+// repoDir is the tree under test. It is /repo (the registered checks never use anything
+// else); VSIM_REPO lets a background sweep work on a snapshot of it - the `replace` of the
+// harness module must then point at the same directory.
+var repoDir = func() string {
+	if d := os.Getenv("VSIM_REPO"); d != "" {
+		return d
+	}
+	return "/repo"
+}()
 
 // verifRoot is the directory the checks run in (cwd = /verif per MANIFEST contract, or a
 // snapshot of it); everything the driver reads or writes is relative to it.
